@@ -124,20 +124,21 @@ def check_case(case):
     # 4b. re-centring on a point BETWEEN grid nodes: on the bare periodic domain the shifted field is the un-shifted one
     #     with every Fourier component turned by exp(i k.(point - centre)) - asserted for the components strictly inside
     #     the retained band (the unpaired Nyquist ones lose their imaginary part on the way back)
-    mpo = ((im + 0.3) * dx, (jm + 0.6) * dy)
-    _, co, fo = sut.S(q0, z, prof, dom, lv, meas_pt=mpo, srf_bg_conc=case["bg"], **kw)
     mm = kw["modes"] if kw["modes"] is not None else (512, 512)
     kxi, kyi = np.fft.fftfreq(nx, 1.0 / nx), np.fft.fftfreq(ny, 1.0 / ny)
     band = (np.abs(kyi) < min(mm[1], ny) / 2.0)[:, None] & (np.abs(kxi) < min(mm[0], nx) / 2.0)[None, :]
     KXo, KYo = np.meshgrid(2 * np.pi * kxi / dom[0], 2 * np.pi * kyi / dom[1])
-    ph = np.exp(1j * (KXo * (mpo[0] - dom[0] / 2) + KYo * (mpo[1] - dom[1] / 2)))
-    for name, a, b in (("conc", sut.as3d(co), sut.as3d(c0)), ("flux", sut.as3d(fo), sut.as3d(f0))):
-        A = np.fft.fft2(a, axes=(1, 2)) * band
-        B = np.fft.fft2(b, axes=(1, 2)) * ph * band
-        scale = max(tol.maxabs(np.fft.fft2(b, axes=(1, 2))), (cs0 if name == "conc" else fs0) * nx * ny)
-        if not tol.maxabs(A - B) <= rel * scale:
-            out.bad(f"re-centring on the off-node point {mpo}: in-band {name} spectrum differs from the phase-shifted spectrum of the "
-                    f"un-shifted run by {tol.maxabs(A - B):.3e} (> {rel * scale:.3e}; grid {nx}x{ny}, modes {kw['modes']})")
+    # (a point inside the window, and one south-west of the origin: coordinates are not assumed to be positive)
+    for mpo in (((im + 0.3) * dx, (jm + 0.6) * dy), (-(1.3 + im % 2) * dx, -0.6 * dy)):
+        _, co, fo = sut.S(q0, z, prof, dom, lv, meas_pt=mpo, srf_bg_conc=case["bg"], **kw)
+        ph = np.exp(1j * (KXo * (mpo[0] - dom[0] / 2) + KYo * (mpo[1] - dom[1] / 2)))
+        for name, a, b in (("conc", sut.as3d(co), sut.as3d(c0)), ("flux", sut.as3d(fo), sut.as3d(f0))):
+            A = np.fft.fft2(a, axes=(1, 2)) * band
+            B = np.fft.fft2(b, axes=(1, 2)) * ph * band
+            scale = max(tol.maxabs(np.fft.fft2(b, axes=(1, 2))), (cs0 if name == "conc" else fs0) * nx * ny)
+            if not tol.maxabs(A - B) <= rel * scale:
+                out.bad(f"re-centring on the off-node point {mpo}: in-band {name} spectrum differs from the phase-shifted spectrum of "
+                        f"the un-shifted run by {tol.maxabs(A - B):.3e} (> {rel * scale:.3e}; grid {nx}x{ny}, modes {kw['modes']})")
     out.label("recentre-off-node-checked")
 
     # 5. with a halo the returned window is a crop of the padded periodic domain: moving the tower by whole
